@@ -150,10 +150,13 @@ def accept(wd, events, name):
 
 NASTY = {
     "Python": [("trunc.py", b"def f(a):\n    return a\n\ndef g("), ("latin.py", "# r\xe9sum\xe9\ndef f():\n    return 'caf\xe9'\n".encode("latin-1")), ("ok.py", b"def f():\n    pass\n"),
+               # findings: only a file with a function above 30 lines reaches the path arithmetic of the report
+               ("long.py", ("def long_one(a):\n" + "".join(f"    v{i} = {i}\n" for i in range(40)) + "\ndef huge(a):\n" + "".join(f"    w{i} = {i}\n" for i in range(70))).encode()),
                ("high.py", b"# " + bytes(range(0x80, 0x100)) + b"\ndef f():\n    return 1\n")],
     "JavaScript": [("arrow.js", b"const f = (cb = () => 0) => {\n  return cb();\n};\n"), ("latin.js", "// r\xe9sum\xe9\nfunction f() {\n  return 1;\n}\n".encode("latin-1"))],
     "C": [("deep.c", ("int f(void) {\n" + "{" * 60 + "\n").encode()), ("latin.c", "/* \xe9 */\nint f(void) {\n  return 1;\n}\n".encode("latin-1"))],
-    "Java": [("Un.java", b"class K { void f(int a) throws { new R() { void g() {")],
+    "Java": [("Un.java", b"class K { void f(int a) throws { new R() { void g() {"),
+             ("Long.java", ("class K {\n  void longOne(int a) {\n" + "".join(f"    int v{i} = {i};\n" for i in range(45)) + "  }\n}\n").encode())],
     "TypeScript": [("gen.ts", b"function f<T>(a: T): T {\n  return a;\n}\nconst g = (x = (y) => y) => {\n};\n")],
 }
 
